@@ -217,7 +217,7 @@ def growAux (minSize : Nat) : Nat → Nat → Nat → Nat × Nat
   | fuel + 1, r, ta => if r < minSize then growAux minSize fuel (r * 2) (ta + 1) else (r, ta)
 
 /-- `best_mixed_domain_size::<F>(min_size)`; `.panic` = the two `unwrap`s (field without small
-    subgroup).  Preconditions: base `≥ 1`, `min_size ≤ 2^63`, `base^adicity < 2^63`
+    subgroup; since 45fd997 both callers test `SMALL_SUBGROUP_BASE` first).  Preconditions: base `≥ 1`, `min_size ≤ 2^63`, `base^adicity < 2^63`
     (otherwise the Rust `while r < min_size { r *= 2 }` wraps and may not terminate). -/
 def bestMixedDomainSize (P : Params F) (minSize : Nat) : Outcome Nat :=
   match P.smallAdicity with
